@@ -16,6 +16,7 @@ type Config struct {
 	MaxSteps  int
 	MaxTicks  int
 	MakeCut   int
+	Params    map[string]int
 	Delays    int
 	Race      bool
 	Solver    string
@@ -426,6 +427,7 @@ func (r *Run) assert(c *Term, id string) {
 func (r *Run) uncaughtPanic(t *Thread, p *GoPanic) {
 	r.event("PANIC " + p.msg)
 	r.violation("panic", fmt.Sprintf("uncaught %s at %s (thread %s)", p.msg, p.site, t.name), nil)
+	r.violations[len(r.violations)-1].Site = p.site
 }
 
 // ---------------------------------------------------------------------------
@@ -675,7 +677,7 @@ func Explore(P *Program, cfg Config, harness string) *Summary {
 					sum.EventSeqs[es]++
 				}
 				for _, v := range res.Violations {
-					key := v.Assert + "|" + strings.Join(v.Events, " ")
+					key := v.Assert + "|" + strings.Join(v.Events, " ") + "|" + fmt.Sprint(v.Choices)
 					if !seenViol[key] {
 						seenViol[key] = true
 						sum.Violations = append(sum.Violations, v)
